@@ -3,7 +3,8 @@
 REPO ?= /repo
 FLAVOUR ?= plain
 BUILDROOT ?= build
-B := $(BUILDROOT)/$(FLAVOUR)
+# always absolute: the generated .d files name their targets by this path, so relative and absolute invocations must agree
+B := $(abspath $(BUILDROOT)/$(FLAVOUR))
 SIMD ?=
 
 TL := $(REPO)/lib/texellib
